@@ -1,6 +1,7 @@
 package main
 
 import (
+	"strconv"
 	"time"
 
 	"github.com/aundis/formula/simhook"
@@ -107,6 +108,16 @@ func finishChunk(res *ChunkResult) {
 	if !clockMin.IsZero() {
 		res.SimClockMin = clockMin.UTC().Format(time.RFC3339Nano)
 		res.SimClockMax = clockMax.UTC().Format(time.RFC3339Nano)
+	}
+	if corpusBuilt {
+		if res.Extra == nil {
+			res.Extra = map[string]string{}
+		}
+		res.Extra["baseline_digest"] = strconv.FormatUint(corpusHash, 16)
+		res.PerProcess = corpusDigest
+		for i := range corpus {
+			res.PerProcessQ = append(res.PerProcessQ, "corpus["+strconv.Itoa(i)+"] `"+corpus[i].Text+"` data "+specString(corpus[i].Spec))
+		}
 	}
 	res.Faults["map_permute"] += permCalls
 	res.Faults["pool_flush_at_handover"] += poolFlushes
